@@ -428,3 +428,195 @@ func c20r7(c *Ctx) {
 		c.Anchor(rule, "a store into the result's OutputTransfers below MergeOutputAccounts")
 	}
 }
+
+// ---------------------------------------------------------------- R8: later storage updates win
+
+// c20r8: "lets later storage updates win": below the two merge entry points, every turn of a loop over the merged-in
+// account's storage updates stores that turn's key with that turn's update in a map (the result's own) before the next
+// turn begins or the loop is left — no turn is skipped (`continue` on some updates), and nothing is deleted from the
+// result's map. An update that carries empty data is a deletion the node has to see; dropping it lets the earlier write win.
+func c20r8(c *Ctx) {
+	const rule = "C20-R8"
+	c.Rule(rule, "later storage updates win: every turn of the loop over the merged-in updates stores that turn's (key, update); nothing is deleted from the result", 1)
+	var roots []*ssa.Function
+	for _, n := range []string{"(*vmcommon.OutputAccount).MergeOutputAccounts", "(*vmcommon.OutputAccount).MergeStorageUpdates"} {
+		if fn := c.P.FuncByName(n); fn != nil {
+			roots = append(roots, fn)
+		} else {
+			c.Anchor(rule, n)
+		}
+	}
+	isUpdMap := func(t types.Type) bool {
+		m, ok := t.Underlying().(*types.Map)
+		if !ok {
+			return false
+		}
+		pt, ok := m.Elem().Underlying().(*types.Pointer)
+		if !ok {
+			return false
+		}
+		n, ok := pt.Elem().(*types.Named)
+		return ok && n.Obj().Name() == "StorageUpdate"
+	}
+	var fns []*ssa.Function
+	for fn := range c.P.ReachableFrom(roots) {
+		if c.P.InPkgs(fn, "") && len(fn.Blocks) > 0 {
+			fns = append(fns, fn)
+		}
+	}
+	sort.Slice(fns, func(i, j int) bool { return FuncName(fns[i]) < FuncName(fns[j]) })
+	loops := 0
+	for _, fn := range fns {
+		for _, b := range fn.Blocks {
+			for _, in := range b.Instrs {
+				// nothing is deleted from a storage-update map
+				if call, ok := in.(ssa.CallInstruction); ok {
+					if bi, ok := call.Common().Value.(*ssa.Builtin); ok && bi.Name() == "delete" && isUpdMap(call.Common().Args[0].Type()) {
+						c.FailX(Oblig{Rule: rule, Func: FuncName(fn), Construct: "delete from a storage-update map below the merge", Pos: c.P.InstrPos(in), Kind: "violation",
+							Detail: "the merge removes an entry from a storage-update map: an update made earlier or later is lost instead of the later one winning"})
+					}
+				}
+				nx, ok := in.(*ssa.Next)
+				if !ok || nx.IsString {
+					continue
+				}
+				rg, ok := nx.Iter.(*ssa.Range)
+				if !ok || !isUpdMap(rg.X.Type()) {
+					continue
+				}
+				loops++
+				construct := "loop over " + c.P.Env(fn).Term(rg.X) + ": every turn stores its own (key, update)"
+				// the body: the successor taken when the iterator yielded an element
+				var okv, keyv, valv ssa.Value
+				if nx.Referrers() != nil {
+					for _, r := range *nx.Referrers() {
+						if ex, isEx := r.(*ssa.Extract); isEx {
+							switch ex.Index {
+							case 0:
+								okv = ex
+							case 1:
+								keyv = ex
+							case 2:
+								valv = ex
+							}
+						}
+					}
+				}
+				iff, _ := b.Instrs[len(b.Instrs)-1].(*ssa.If)
+				if iff == nil || okv == nil || iff.Cond != okv {
+					c.Fail(rule, "undecided", FuncName(fn), construct, c.P.InstrPos(nx), "the loop over the merged-in updates has a shape that is not recognised")
+					continue
+				}
+				body := b.Succs[0]
+				isTurnStore := func(x ssa.Instruction) bool {
+					mu, ok := x.(*ssa.MapUpdate)
+					if !ok || !isUpdMap(mu.Map.Type()) || keyv == nil || valv == nil {
+						return false
+					}
+					if stripConv(mu.Key) != keyv {
+						return false
+					}
+					if mu.Value == valv {
+						return true
+					}
+					// a private copy of the update: a fresh object whose Data is that of this turn's update
+					if al, ok := mu.Value.(*ssa.Alloc); ok && al.Referrers() != nil {
+						for _, r := range *al.Referrers() {
+							fa, ok := r.(*ssa.FieldAddr)
+							if !ok || fieldName(fa.X.Type(), fa.Field) != "Data" || fa.Referrers() == nil {
+								continue
+							}
+							for _, r2 := range *fa.Referrers() {
+								if st, ok := r2.(*ssa.Store); ok && derivedFromField(st.Val, valv, "Data", 0) {
+									return true
+								}
+							}
+						}
+					}
+					return false
+				}
+				seen := map[*ssa.BasicBlock]bool{}
+				var escape string
+				var walk func(x *ssa.BasicBlock)
+				walk = func(x *ssa.BasicBlock) {
+					if seen[x] || escape != "" {
+						return
+					}
+					seen[x] = true
+					if x == b {
+						escape = "the next turn begins"
+						return
+					}
+					for _, xi := range x.Instrs {
+						if isTurnStore(xi) {
+							return
+						}
+						if _, isRet := xi.(*ssa.Return); isRet {
+							escape = "the merge returns (" + c.P.InstrPos(xi) + ")"
+							return
+						}
+					}
+					for _, s := range x.Succs {
+						walk(s)
+					}
+				}
+				walk(body)
+				if escape == "" {
+					c.OK(rule, FuncName(fn), construct, c.P.InstrPos(nx), "every path through a turn passes m[key] = update of that turn")
+				} else {
+					c.FailX(Oblig{Rule: rule, Func: FuncName(fn), Construct: construct, Pos: c.P.InstrPos(nx), Kind: "violation",
+						Detail:   "a turn of the loop can end without storing its update: " + escape + " on a path that bypasses the store — the skipped update (e.g. one that clears the value) does not win over the earlier one",
+						Expected: "result.StorageUpdates[key] = update on every path through the loop body"})
+				}
+			}
+		}
+	}
+	if loops == 0 {
+		c.Anchor(rule, "a loop over the merged-in account's StorageUpdates below the merge functions")
+	}
+}
+
+func stripConv(v ssa.Value) ssa.Value {
+	for {
+		switch x := v.(type) {
+		case *ssa.ChangeType:
+			v = x.X
+		case *ssa.Convert:
+			v = x.X
+		case *ssa.MakeInterface:
+			v = x.X
+		default:
+			return v
+		}
+	}
+}
+
+// derivedFromField: v is obj.<field>, a re-slice / copy-append of it.
+func derivedFromField(v, obj ssa.Value, field string, depth int) bool {
+	if depth > 6 {
+		return false
+	}
+	switch x := v.(type) {
+	case *ssa.UnOp:
+		if fa, ok := x.X.(*ssa.FieldAddr); ok && x.Op == token.MUL && fa.X == obj && fieldName(fa.X.Type(), fa.Field) == field {
+			return true
+		}
+	case *ssa.Slice:
+		return derivedFromField(x.X, obj, field, depth+1)
+	case *ssa.Call:
+		if bi, ok := x.Call.Value.(*ssa.Builtin); ok && bi.Name() == "append" && len(x.Call.Args) == 2 {
+			return derivedFromField(x.Call.Args[1], obj, field, depth+1)
+		}
+	case *ssa.MakeSlice:
+		if x.Referrers() != nil {
+			for _, r := range *x.Referrers() {
+				if call, ok := r.(*ssa.Call); ok {
+					if bi, ok := call.Call.Value.(*ssa.Builtin); ok && bi.Name() == "copy" && call.Call.Args[0] == ssa.Value(x) {
+						return derivedFromField(call.Call.Args[1], obj, field, depth+1)
+					}
+				}
+			}
+		}
+	}
+	return false
+}
